@@ -15,12 +15,12 @@ RULE = ('metamorphic: a base run (2-4 references, 10 queries of classes clean/no
         'excluded. Non-trivial = base run with >= 3 records; distinct by content hash of the base record set.')
 ASSUMPTIONS = ['all runs in-process M-serial with -c 1: queries share one worker, which is the hostile case for cross-query state',
                'molecule ids are unique within a file']
-MINIMUMS = {'base-runs': {'quick': 40, 'thorough': 600}, 'relations-checked': {'quick': 250, 'thorough': 4000},
-            'records-compared': {'quick': 400, 'thorough': 6000}}
+MINIMUMS = {'base-runs': {'quick': 25, 'thorough': 600}, 'relations-checked': {'quick': 180, 'thorough': 4000},
+            'records-compared': {'quick': 250, 'thorough': 6000}}
 
 
 def plan(tier, seed):
-    n, c = (16, 3) if tier == 'quick' else (64, 10)
+    n, c = (16, 2) if tier == 'quick' else (64, 10)
     return [{'name': 's%d' % i, 'kind': 'mm', 'seed': seed, 'shard': i, 'cases': c} for i in range(n)]
 
 
